@@ -8,7 +8,8 @@ from vlib import *
 OVERLAY = {"p2p/net/swarm/zz_c05_verif_test.go": "harness/overlay/swarm/c05_verif_test.go",
            "p2p/net/swarm/zz_c05w_verif_test.go": "harness/overlay/swarm/c05w_verif_test.go",
            "p2p/net/swarm/zz_c05r_verif_test.go": "harness/overlay/swarm/c05r_verif_test.go",
-           "p2p/net/swarm/zz_c05s_verif_test.go": "harness/overlay/swarm/c05s_verif_test.go"}
+           "p2p/net/swarm/zz_c05s_verif_test.go": "harness/overlay/swarm/c05s_verif_test.go",
+           "p2p/net/swarm/zz_c05d_verif_test.go": "harness/overlay/swarm/c05d_verif_test.go"}
 PKG = "p2p/net/swarm"
 
 
@@ -92,7 +93,44 @@ def w_steps(t):
         yield st, {"responses": rs, "dials": ds, "connected": conn, "tracked": ts, "pending": ps, "quiet": q}
 
 
+def d_steps(t):
+    i, n = 3, len(t)
+    while i < n:
+        k = t[i]
+        if k == 1:
+            st = ("DialPeer", t[i + 1], "sim" if t[i + 2] else "-", "forcedirect" if t[i + 3] else "-"); i += 4
+        elif k == 2:
+            st = ("advance_ns", t[i + 1]); i += 2
+        elif k == 3:
+            st = ("transport-dial-ends", t[i + 1], "conn" if t[i + 2] == 1 else "fail"); i += 3
+        elif k == 4:
+            st = ("cancel-caller", t[i + 1]); i += 2
+        elif k == 5:
+            st = ("backoff", t[i + 1]); i += 2
+        else:
+            return
+        nr = t[i]; i += 1
+        rs = [(t[i + 2 * a], {0: "conn", 1: "err", 2: "ctx-err", 3: "WRONG-PEER"}.get(t[i + 2 * a + 1])) for a in range(nr)]; i += 2 * nr
+        ns = t[i]; ss = t[i + 1:i + 1 + ns]; i += 1 + ns
+        ne = t[i]; es = t[i + 1:i + 1 + ne]; i += 1 + ne
+        f = t[i:i + 7]; i += 7
+        yield st, {"returns": rs, "dial_starts": ss, "dial_ends": es, "inflightFD": f[0], "inflight": f[1],
+                   "fdConsuming": f[2], "activePerPeer": f[3], "activeDials": f[4], "goroutines_left": f[5], "waiting": f[6]}
+
+
 def describe(t):
+    if t and t[0] == 5:
+        try:
+            return {"kind": "Swarm.DialPeer", "fdLimit": t[1], "perPeerLimit": t[2],
+                    "steps": ["%s -> %s" % (st, ob) for st, ob in d_steps(t)][:80]}
+        except Exception as e:
+            return {"raw": t[:120], "decode_error": str(e)}
+    if t and t[0] == 3:
+        return {"kind": "dialSync", "raw(see SpecSync.v)": t[:200]}
+    return describe2(t)
+
+
+def describe2(t):
     try:
         if t and t[0] == 2:
             steps = []
@@ -133,6 +171,12 @@ def nontrivial(line):
             return any(ob["waitingOnFd"] > 0 or ob["waitingOnPeer"] for _, ob in lim_steps(t))
     except Exception:
         return False
+    if t and t[0] == 5:
+        # DialPeer: at least two callers were inside at once and a transport dial started
+        try:
+            return any(ob["waiting"] >= 2 for _, ob in d_steps(t)) and any(ob["dial_starts"] for _, ob in d_steps(t))
+        except Exception:
+            return False
     if t and t[0] == 3:
         # dialSync: some caller left (cancelled) while another one was still waiting
         return b" 2 " in line
@@ -219,6 +263,9 @@ def what(tag, toks, d):
     kind = toks[0] if toks else 0
     clause = (WCLAUSE if kind == 2 else CLAUSE).get(d[2], str(d[2])) if len(d) > 2 else "?"
     comp = {1: "dial limiter", 2: "dial worker", 3: "dialSync", 4: "DefaultDialRanker", 5: "Swarm.DialPeer"}.get(kind, "?")
+    if kind == 5:
+        clause = {1: "return-not-exactly-once/wrong-peer/unjustified-conn", 2: "cancelled-caller-not-released", 3: "address-handed-to-transport-twice",
+                  4: "caps", 5: "cancel-of-one-caller-ended-shared-dials", 6: "residue-after-all-returned", 7: "caller-count", 8: "caller-never-returned"}.get(d[2] if len(d) > 2 else 0, "?")
     if kind == 3:
         clause = {1: "caller-return-not-exactly-once-or-not-prompt", 2: "refcount/worker/shared-context", 3: "reqch-closed-before-context-cancelled"}.get(d[2] if len(d) > 2 else 0, "?")
     if kind == 4:
